@@ -3,7 +3,7 @@ _sha1 = ["src/lib/hash/bundled/sha1/sha1.c"]
 _inc = ["-I", "/repo/src/lib/hash/bundled/sha2", "-I", "/repo/src/lib/hash/bundled/sha1", "-DV_NO_PRIVATE"]
 def T1(name, srcs, what, fns, **kw):
     return dict(file="C18.c", name=name, function=name, repo_srcs=srcs, models=[], defines=_inc + ["-DH_" + name], unwind=130,
-                solver="default", tiers=("thorough",), what=what, bounds="one block, symbolic chaining value and block (all 2^768 / 2^1536 inputs)", functions=fns, timeout=3300, mem_gb=16, **kw)
+                solver="default", tiers=("manual",), what=what, bounds="one block, symbolic chaining value and block (all 2^768 / 2^1536 inputs)", functions=fns, timeout=3300, mem_gb=16, **kw)
 def T2(fn, srcs, rb, L, prior, what, fns, tiers=("quick", "thorough"), suffix="", **kw):
     lmax = max(L, 1)
     return dict(file="C18.c", name="%s-L%d%s" % (fn, L, suffix), function=fn, repo_srcs=srcs, remove_bodies=rb, models=[],
@@ -32,7 +32,7 @@ SPEC = {
                 "(longer prefixes are covered through the symbolic number of previously absorbed blocks)",
                 "src/lib/hash/openssl/openssl.c glue (type -> EVP_* mapping) is read, not encoded"],
     "assumptions": ["SHA-512/128 is the first 16 bytes of SHA-512: hash_setup's digest_size (C13/C07 harnesses) - the back end computes full SHA-512"],
-    "level_note": "quick tier: T2 (padding/block protocol, SAT) and the constant tables; T1 (compression-function equivalence, 900 s was not enough on any back end in this sandbox) runs in the thorough tier only and may end inconclusive; real sha2.c/sha1.c compiled by goto-cc; little-endian x86-64 configuration",
+    "level_note": "T2 (padding/block protocol, SAT) and the constant tables are decided; T1 (compression-function equivalence, harnesses h18a/b/c) is written but NOT registered in any tier: no back end finished it within 900 s in this sandbox, so the round functions themselves are covered only through the constant tables; real sha2.c/sha1.c compiled by goto-cc; little-endian x86-64 configuration",
     "harnesses": [
         T1("h18a", _sha2, "sha256_transf == FIPS 180-4 SHA-256 compression", ["sha256_transf"]),
         T1("h18b", _sha2, "sha512_transf == FIPS 180-4 SHA-512 compression", ["sha512_transf"]),
